@@ -583,6 +583,10 @@ impl Xot {
     pub fn parse_with_span_info(&mut self, xml: &str) -> Result<(Node, SpanInfo), ParseError> {
         let tokenizer = Tokenizer::from(xml);
         let (span_info, builder) = self._parse(tokenizer)?;
+        if let Some(element_builder) = &builder.element_builder {
+            // the input ended inside a start tag
+            return Err(ParseError::UnclosedTag(element_builder.span));
+        }
         // we expect both a document as the current node (everything else being
         // closed) *and* the content of this node containing a single element
         // if not, we have a problem. We want to produce a parse error for
@@ -648,6 +652,10 @@ impl Xot {
     ) -> Result<(Node, SpanInfo), ParseError> {
         let tokenizer = Tokenizer::from_fragment(xml, 0..xml.len());
         let (span_info, builder) = self._parse(tokenizer)?;
+        if let Some(element_builder) = &builder.element_builder {
+            // the input ended inside a start tag
+            return Err(ParseError::UnclosedTag(element_builder.span));
+        }
         if builder.is_current_node_document(self) {
             let document_node = Node::new(builder.tree);
             self.id_nodes_map
